@@ -165,6 +165,8 @@ class Exec(Engine):
             return VAny(t)
         if T[0] == 'list':
             return VList(T[1], t)
+        if T[0] == 'ref':
+            return VRef(T[1], t)      # a module-level instance (e.g. a shared sentinel token)
         raise Unsupported('global %s of type %s' % (key, T))
 
     def from_resolved(self, r, node=None):
@@ -573,6 +575,32 @@ class Exec(Engine):
             if isinstance(op, ast.Div):
                 self.prove(st, y != 0, 'aorte', node, 'ZeroDivisionError: ' + ast.unparse(node))
                 return [(st, VFloat(z3.ToReal(x) / z3.ToReal(y)))]
+            if isinstance(op, (ast.BitAnd, ast.BitOr, ast.LShift)):
+                xs, ys = simp(x), simp(y)
+                if z3.is_int_value(xs) and z3.is_int_value(ys) and (not isinstance(op, ast.LShift) or ys.as_long() >= 0):
+                    u, w = xs.as_long(), ys.as_long()
+                    return [(st, VInt(z3.IntVal(u & w if isinstance(op, ast.BitAnd) else
+                                                  u | w if isinstance(op, ast.BitOr) else u << w)))]
+                if isinstance(op, ast.LShift) and z3.is_int_value(ys) and ys.as_long() >= 0:
+                    return [(st, VInt(simp(xs * (1 << ys.as_long()))))]
+                if isinstance(op, (ast.BitAnd, ast.BitOr)):
+                    # one operand is a non-negative literal mask: bit b of an integer v is (v div 2^b) mod 2
+                    # (floor division: exact for Python's unbounded two's complement integers)
+                    if z3.is_int_value(xs):
+                        xs, ys = ys, xs
+                    if z3.is_int_value(ys) and ys.as_long() >= 0:
+                        m = ys.as_long()
+                        conj = z3.IntVal(0)
+                        b = 0
+                        while (1 << b) <= m:
+                            if m & (1 << b):
+                                conj = conj + (1 << b) * ((xs / (1 << b)) % 2)
+                            b += 1
+                        conj = simp(conj)
+                        if isinstance(op, ast.BitAnd):
+                            return [(st, VInt(conj))]
+                        return [(st, VInt(simp(xs + m - conj)))]
+                raise Unsupported('bit operation on two symbolic integers', node)
         fl = (VInt, VBool, VFloat)
         if isinstance(a, fl) and isinstance(b, fl):
             x = a.t if isinstance(a, VFloat) else z3.ToReal(self.num(a))
